@@ -15,4 +15,9 @@ def cmpInt (a b : Bytes) : Int :=
   | .eq => 0
   | .gt => 1
 
+/-- `bytes.Compare` only returns -1, 0 or 1 (used by the generated ties `Gen.f = GenSrc.f`, so that
+`== 1` and `> 0` on a comparison result are recognised as the same test) -/
+theorem cmpInt_cases (a b : Bytes) : cmpInt a b = -1 ∨ cmpInt a b = 0 ∨ cmpInt a b = 1 := by
+  unfold cmpInt; split <;> simp
+
 end Rxn
